@@ -8,6 +8,7 @@ import (
 	"crypto/ecdh"
 	"crypto/ed25519"
 	"fmt"
+	"sort"
 	"strings"
 
 	"golang.org/x/crypto/nacl/auth"
@@ -37,6 +38,19 @@ func init() {
 
 // forceLow makes the next box / precompute op use a low-order peer key (every box-family session has one)
 var forceLow bool
+
+// low-order points are taken round-robin so that every entry of the list (first and last included) is used
+var (
+	lowSeen = map[string]bool{}
+	lowNext int
+)
+
+func pickLow() []byte {
+	h := lowOrder[lowNext%len(lowOrder)]
+	lowNext++
+	lowSeen[h] = true
+	return hx.UnHex(h)
+}
 
 func wantLow(r *hx.Rand, num, den int) bool {
 	if forceLow {
@@ -73,6 +87,9 @@ func pubOf(priv []byte) []byte {
 var edges = []int{0, 1, 15, 16, 17, 31, 32, 33, 63, 64, 65, 95, 96, 97, 127, 128, 129}
 
 func msgLen(r *hx.Rand, g *hx.Gen) int {
+	if forceLen >= 0 {
+		return forceLen
+	}
 	switch r.Intn(4) {
 	case 0:
 		return hx.Pick(r, edges)
@@ -86,6 +103,14 @@ func msgLen(r *hx.Rand, g *hx.Gen) int {
 }
 
 func outFor(r *hx.Rand, need int) (out []byte, spare int) {
+	switch forceOut {
+	case "none":
+		return nil, 0
+	case "prefix":
+		return r.Bytes(r.Range(1, 12)), 0
+	case "spare":
+		return r.Bytes(r.Intn(12)), need + r.Range(1, 30)
+	}
 	switch r.Intn(4) {
 	case 0:
 		return nil, 0
@@ -134,7 +159,7 @@ func genLine(g *hx.Gen, kind int) string {
 			apriv, bpriv := r.Bytes(32), r.Bytes(32)
 			apub, bpub := pubOf(apriv), pubOf(bpriv)
 			if wantLow(r, 1, 5) { // B announces a low-order public key
-				bpub = hx.UnHex(hx.Pick(r, lowOrder))
+				bpub = pickLow()
 				g.Stat("precompute.low-order-peer")
 			}
 			line = fmt.Sprintf("precomp apriv=%s apub=%s bpriv=%s bpub=%s oracle.dh1=%s oracle.dh2=%s", hx.Hex(apriv), hx.Hex(apub), hx.Hex(bpriv), hx.Hex(bpub), dh(apriv, bpub), dh(bpriv, apub))
@@ -143,7 +168,7 @@ func genLine(g *hx.Gen, kind int) string {
 			priv := r.Bytes(32)
 			pub := pubOf(r.Bytes(32))
 			if wantLow(r, 1, 8) {
-				pub = hx.UnHex(hx.Pick(r, lowOrder))
+				pub = pickLow()
 				g.Stat("box.low-order-peer")
 			}
 			out, spare := outFor(r, L+16)
@@ -165,7 +190,7 @@ func genLine(g *hx.Gen, kind int) string {
 			esk := r.Bytes(32)
 			rc := pubOf(r.Bytes(32))
 			if r.Chance(1, 10) {
-				rc = hx.UnHex(hx.Pick(r, lowOrder))
+				rc = pickLow()
 			}
 			out, spare := outFor(r, L+48)
 			line = fmt.Sprintf("anseal recipient=%s esk=%s oracle.epk=%s oracle.dh=%s msg=%s out=%s cap=%d", hx.Hex(rc), hx.Hex(esk), hx.Hex(pubOf(esk)), dh(esk, rc), hx.Hex(msg), hx.Hex(out), spare)
@@ -253,9 +278,116 @@ var families = [][]int{
 	{14, 15},        // auth
 }
 
+// feature pairs: op kind × message class × out shape × nil / session / fresh / low-order / precomputed / tampered
+func pairSweepC10(g *hx.Gen) {
+	r := g.R
+	kinds := map[string]int{"sbseal": 0, "sbopen": 3, "bxseal": 6, "bxopen": 9, "anseal": 10, "anopen": 11, "sign": 12, "sopen": 13, "auth": 14, "authv": 15}
+	var ops []string
+	for k := range kinds {
+		ops = append(ops, k)
+	}
+	sort.Strings(ops)
+	msgc := []string{"msg-empty", "msg<32", "msg=32", "msg=33", "msg-64k+32", "msg-long"}
+	ps := &pairSweep{
+		feats:     append(append([]string{"out-prefix", "out-spare", "nil", "session", "fresh"}, ops...), msgc...),
+		exclusive: [][]string{ops, msgc},
+		forbidden: map[string][]string{
+			"nil":   {"msg<32", "msg=32", "msg=33", "msg-64k+32", "msg-long", "out-prefix", "out-spare", "sopen", "sbopen", "bxopen", "anopen", "authv"},
+			"auth":  {"out-prefix", "out-spare"},
+			"authv": {"out-prefix", "out-spare"},
+		},
+	}
+	ps.run(1, func(k string) { g.Stat(k) }, func(fs featSet) bool {
+		kind := hx.Pick(r, []int{0, 6, 12, 14})
+		for name, k := range kinds {
+			if fs.has(name) {
+				kind = k
+			}
+		}
+		forceLen, forceOut = -1, ""
+		switch {
+		case fs.has("msg-empty") || fs.has("nil"):
+			forceLen = 0
+		case fs.has("msg<32"):
+			forceLen = r.Range(1, 31)
+		case fs.has("msg=32"):
+			forceLen = 32
+		case fs.has("msg=33"):
+			forceLen = 33
+		case fs.has("msg-64k+32"):
+			forceLen = 64*r.Range(1, 6) + 32
+		case fs.has("msg-long"):
+			forceLen = r.Range(600, 1500)
+		}
+		switch {
+		case fs.has("out-prefix"):
+			forceOut = "prefix"
+		case fs.has("out-spare"):
+			forceOut = "spare"
+		case fs.has("nil"):
+			forceOut = "none"
+		}
+		line := genLine(g, kind)
+		forceLen, forceOut = -1, ""
+		if fs.has("nil") {
+			line += " nils=1"
+		}
+		if fs.has("session") || fs.has("fresh") {
+			second := line
+			if fs.has("fresh") {
+				second += " fresh=1"
+			}
+			g.Emit("%s", sessLine([]string{line, genLine(g, kind), second}))
+		} else {
+			g.Emit("%s", line)
+		}
+		return true
+	})
+}
+
+var (
+	forceLen = -1 // pair sweep: message length / out shape of the next generated op
+	forceOut = ""
+)
+
 func gen(g *hx.Gen) {
 	r := g.R
-	n := g.Count(2400, 40000)
+	g.Emit("api")
+	pairSweepC10(g)
+	// key generation, short random streams, SealAnonymous with crypto/rand
+	for i := 0; i < 60; i++ {
+		seed := r.Bytes(hx.Pick(r, []int{32, 32, 32, 40, 64, 31, 16, 0}))
+		switch r.Intn(4) {
+		case 0:
+			pub := ""
+			if len(seed) >= 32 {
+				pub = hx.Hex(pubOf(seed[:32]))
+			} else {
+				pub = "-"
+			}
+			g.Emit("bxgen seed=%s oracle.pub=%s", hx.Hex(seed), pub)
+			g.Stat("keygen.box")
+		case 1:
+			pub := "-"
+			if len(seed) >= 32 {
+				pub = hx.Hex(ed25519.NewKeyFromSeed(seed[:32]).Public().(ed25519.PublicKey))
+			}
+			g.Emit("sgen seed=%s oracle.pub=%s", hx.Hex(seed), pub)
+			g.Stat("keygen.sign")
+		case 2: // SealAnonymous whose rand stream is too short: error, nothing returned
+			esk := r.Bytes(r.Intn(32))
+			g.Emit("anseal recipient=%s esk=%s oracle.epk=%s oracle.dh=err msg=%s out=- cap=0", hx.Hex(pubOf(r.Bytes(32))), hx.Hex(esk), hx.Hex(make([]byte, 32)), hx.Hex(r.Bytes(r.Intn(40))))
+			g.Stat("sealed.short-rand")
+		default:
+			out, spare := outFor(r, 200)
+			g.Emit("anrt seed=%s msg=%s out=%s cap=%d", hx.Hex(r.Bytes(32)), hx.Hex(r.Bytes(r.Intn(100))), hx.Hex(out), spare)
+			g.Stat("sealed.crypto-rand-roundtrip")
+		}
+	}
+	defer func() {
+		g.StatN(fmt.Sprintf("table.low-order-points=%d/%d", len(lowSeen), len(lowOrder)), 1)
+	}()
+	n := g.Count(2000, 40000)
 	for i := 0; i < n; i++ {
 		g.Emit("%s", genLine(g, r.Intn(16)))
 	}
@@ -332,10 +464,20 @@ func execKat(o hx.Op, a *arena) string {
 
 func execOp(o hx.Op, a *arena) string {
 	var out []byte
+	nils := o.Str("nils") == "1" // empty slices are passed as nil
 	if o.Has("out") {
 		out = a.Out("out", o.Hex("out"), o.Int("cap"), 0xaa)
+		if nils && len(out) == 0 && cap(out) == 0 {
+			out = nil
+		}
 	}
-	in := func(k string) []byte { return a.In(k, o.Hex(k)) }
+	in := func(k string) []byte {
+		b := a.In(k, o.Hex(k))
+		if nils && len(b) == 0 {
+			return nil
+		}
+		return b
+	}
 	k32 := func(k string) *[32]byte { return a.K32(k, o.Hex(k)) }
 	switch o.Cmd {
 	case "sbseal":
@@ -369,6 +511,42 @@ func execOp(o hx.Op, a *arena) string {
 		return hx.Hex(ret)
 	case "anopen":
 		return openRes(box.OpenAnonymous(out, in("box"), k32("pub"), k32("priv")))
+	case "anrt": // SealAnonymous with rand == nil (crypto/rand), then OpenAnonymous: only the round trip is observable
+		pub, priv, err := box.GenerateKey(bytes.NewReader(o.Hex("seed")))
+		if err != nil {
+			return "err"
+		}
+		msg := in("msg")
+		sealed, err := box.SealAnonymous(out, msg, pub, nil)
+		if err != nil {
+			return "err"
+		}
+		opened, ok := box.OpenAnonymous(nil, sealed[len(out):], pub, priv)
+		if ok && bytes.Equal(opened, o.Hex("msg")) && bytes.Equal(sealed[:len(out)], o.Hex("out")) && len(sealed) == len(out)+len(msg)+box.AnonymousOverhead {
+			return "roundtrip-ok"
+		}
+		return "roundtrip-failed"
+	case "bxgen":
+		pub, priv, err := box.GenerateKey(bytes.NewReader(o.Hex("seed")))
+		if err != nil {
+			if pub != nil || priv != nil {
+				return "err-with-keys"
+			}
+			return "err"
+		}
+		return hx.Hex(pub[:]) + " " + hx.Hex(priv[:])
+	case "sgen":
+		pub, priv, err := sign.GenerateKey(bytes.NewReader(o.Hex("seed")))
+		if err != nil {
+			if pub != nil || priv != nil {
+				return "err-with-keys"
+			}
+			return "err"
+		}
+		return hx.Hex(pub[:]) + " " + hx.Hex(priv[:])
+	case "api":
+		return fmt.Sprintf("box.Overhead=%d box.AnonymousOverhead=%d secretbox.Overhead=%d sign.Overhead=%d auth.Size=%d auth.KeySize=%d",
+			box.Overhead, box.AnonymousOverhead, secretbox.Overhead, sign.Overhead, auth.Size, auth.KeySize)
 	case "sign":
 		return hx.Hex(sign.Sign(out, in("msg"), a.K64("priv", o.Hex("priv"))))
 	case "sopen":
